@@ -338,7 +338,12 @@ func (w *Worker) spawn(fr *frame, pos token.Pos, fn value, args []value) {
 		}
 		m.switchTo(others[k], true)
 	}()
-	m.yield("go")
+	if m.schedOn {
+		m.yield("go")
+	} else if m.cur != nil {
+		// deterministic mode: a new goroutine starts promptly and runs until it first blocks
+		m.switchTo(t, false)
+	}
 }
 
 // ---- channels ----
